@@ -1,3 +1,113 @@
-(* C02 — statements are added when the corresponding facts file lands *)
-From SV Require Import Bytes Lexer Tables ArgCheck Machine Printer GenTables.
-Theorem C02_placeholder : True. Proof. exact I. Qed.
+(* C02 — parsing always terminates with a verdict: no exception, no hang.
+
+   Model: sieve/Lexer.v + sieve/Machine.v.  [parse T text] returns Accept | Reject | Crash | OutOfFuel,
+   where Crash stands for every place at which the Python code would raise something other than a
+   ParseError/CommandError (attribute access on None when no command is current, value.lower() on a
+   list, NotImplementedError of reassign_arguments, iteration over a Command in complete_cb ...) and
+   OutOfFuel for the token loop not ending within 2 * len(text) + 2 steps (a token delivered again and
+   again after lexer rewinds).  Proofs: sieve/TotalFacts.v (1900 lines).
+   Theorem C02_total: for EVERY byte string and every command table satisfying the decidable structural
+   condition [twf_tables] (re-checked by vm_compute on the tables regenerated from /repo on every run:
+   C02_tables), the outcome is Accept or Reject — never Crash, never OutOfFuel.  The proof is an
+   invariant of the parser state (stack shape, counters of every frame, bracket/expected-token
+   coherence, "a stray parenthesis ends the parse at the next token") preserved by every transition
+   (C02_step), plus: tokens are non-empty (C02_token_count) and a token delivered again is never
+   delivered a third time (C02_no_double_rewind), hence at most 2 * tokens + 1 machine steps.
+   A rejection carries a position inside the text, so the reported line is between 1 and 1 + the number
+   of line feeds (C02_reject_line).  The condition on the tables is necessary (C02_condition_needed).
+   Not carried by the model: the running time of CPython's regex engine on one token (the check runs
+   every case under a 2 s timer and counts the lexer's yields), UnicodeDecodeError funnelled into
+   ParseError by the except clause (tied by correspondence on invalid UTF-8 inputs). *)
+From Coq Require Import String.
+From Coq Require Import List NArith Bool Arith.
+From SV Require Import Bytes Lexer Tables ArgCheck ArgSpec Machine Printer GenTables.
+Import ListNotations.
+Local Open Scope nat_scope.
+From SV Require Import PositionFacts TotalFacts RegisterFacts.
+
+(* one parser step from a state satisfying the invariant never crashes and re-establishes the invariant *)
+Theorem C02_step :
+  forall (T : tables) (st : pstate) (t : token),
+  twf_tables T = true -> Inv st -> res_inv t (process T st t).
+Proof. exact TotalFacts.process_inv. Qed.
+Print Assumptions C02_step.
+
+(* every token takes at least one byte *)
+Theorem C02_token_count :
+  forall text : bytes, Datatypes.length (fst (lex text)) <= Datatypes.length text.
+Proof. exact TotalFacts.token_count. Qed.
+Print Assumptions C02_token_count.
+
+(* a token delivered again after a lexer rewind is not rewound again *)
+Theorem C02_no_double_rewind :
+  forall (T : tables) (st : pstate) (t : token) (st2 : pstate),
+  rw_ok t st -> process T st t <> MRewind st2.
+Proof. exact TotalFacts.no_double_rewind. Qed.
+Print Assumptions C02_no_double_rewind.
+
+(* every input, every well-formed table: Accept or Reject *)
+Theorem C02_total :
+  forall (T : tables) (text : bytes),
+  twf_tables T = true ->
+  match parse T text with
+  | Accept _ | Reject _ _ _ => True
+  | _ => False
+  end.
+Proof. exact TotalFacts.parse_total. Qed.
+Print Assumptions C02_total.
+
+(* ... instantiated with the tables generated from /repo *)
+Theorem C02_total_generated_tables :
+  forall text : bytes,
+  match parse gen_tables text with
+  | Accept _ | Reject _ _ _ => True
+  | _ => False
+  end.
+Proof. exact TotalFacts.parse_total_gen. Qed.
+Print Assumptions C02_total_generated_tables.
+
+(* the same as a disjunction *)
+Theorem C02_verdict :
+  forall (T : tables) (text : bytes),
+  twf_tables T = true ->
+  (exists r : list node, parse T text = Accept r) \/
+  (exists (e : perr) (pos tlen : nat), parse T text = Reject e pos tlen).
+Proof. exact TotalFacts.verdict_is_bool. Qed.
+Print Assumptions C02_verdict.
+
+(* a rejection reports a position inside the text: 1 <= line <= 1 + number of LF *)
+Theorem C02_reject_line :
+  forall (T : tables) (text : bytes) (e : perr) (pos tlen : nat),
+  parse T text = Reject e pos tlen ->
+  pos <= Datatypes.length text /\ 1 <= lineno text pos <= 1 + count_lf text.
+Proof. exact TotalFacts.reject_line_in_range. Qed.
+Print Assumptions C02_reject_line.
+
+(* the structural condition holds for the tables of the working tree (re-checked on every run) *)
+Theorem C02_tables : twf_tables gen_tables = true.
+Proof. vm_compute. reflexivity. Qed.
+Print Assumptions C02_tables.
+
+(* ... and is preserved by registering a command that satisfies it (C20: custom commands) *)
+Theorem C02_registered : forall T key d text,
+  twf_tables T = true -> twf d = true ->
+  match parse (register key d T) text with Accept _ | Reject _ _ _ => True | _ => False end.
+Proof.
+  intros T key d text HT Hd. apply parse_total. unfold twf_tables, register in *. cbn. rewrite Hd, HT. reflexivity.
+Qed.
+Print Assumptions C02_registered.
+
+(* the condition is needed: a table violating it on which the model loops *)
+Example C02_condition_needed :
+  let d := mkCmd [120%N] CAction [] false false true None None None HNone RHasflag in
+  twf d = false /\ parse [([120%N], d)] [120%N; 123%N] = OutOfFuel.
+Proof. vm_compute. split; reflexivity. Qed.
+
+(* the inputs that used to crash or hang the parser (repaired defects), on the model *)
+Example C02_former_crashers :
+  map (fun s => match parse gen_tables s with Accept _ => 1 | Reject _ _ _ => 2 | Crash _ => 3 | OutOfFuel => 4 end)
+      [bs "require [""imap4flags""]; if hasflag {}"; bs "require;"; bs "control;"; bs "if test {}";
+       bs "keep (true);"; bs "if ( anyof ( true ) ) { }"; bs "if anyof ( header ) ) )"; bs "stop ( ) ;";
+       bs "if true { if true { } else [ { } } }"]
+  = [2; 1; 2; 2; 2; 2; 2; 2; 2].
+Proof. vm_compute. reflexivity. Qed.
